@@ -19,6 +19,7 @@ fn run_family(family: &str, path: &str) {
             "masm" => masm::run_masm(&line),
             "stream" => trace::run_stream(&line),
             "iter" => trace::run_iter(&line),
+            "batch" => trace::run_batch(&line),
             "tracehash" => trace::run_tracehash(&line),
             "asmdump" => masm::run_asmdump(&line),
             _ => panic!("unknown family {family}"),
